@@ -11,4 +11,8 @@ CLAIMED = {
     note="Trusted: go/types+go/ssa (x/tools v0.29.0); baseapp discards the writes of a handler that returns an error; Validate() itself encodes the module's validation rules (its content is not judged). Not covered: parameter writes performed by code outside the module packages.",
     technique="edge-dominance (must-pass-through) on SSA CFG + interprocedural parameter mapping + value-origin slices"),
 }
-NOT_APPLICABLE = {p: _TODO for p in ["C01","C02","C03","C04","C05","C06","C07","C08","C09","C10","C11","C12","C14","C15","C16","C17","C18","C19","C20"]}
+CLAIMED["C01"] = dict(
+    text="Decides who can change supply and with which values: BANK.mint/BANK.burn atoms are enumerated over the whole module and must be reachable only from the cfeminter resp. cfedistributor block routine and from no message, query, ValidateBasic, genesis, migration, upgrade or invariant entry (module call graph with CHA on module interfaces); the vesting/signature keeper interfaces cannot mint, burn or delegate; in the minting routine one mint per activation, the coins minted = coins forwarded = amount book-kept (value identity on SSA), module names cfeminter -> distributor main account (constant resolution through wrappers and app.New), book-keeping only on the success edges; the burn is under State.Burn, burns TruncateDecimal()#0 of that state's remains from the main account and stores #1 of the same call only on success.",
+    note="Undecided: the arithmetic value of the minted/burned amounts and bank's supply==sum(balances) (trusted). Call graph: static callees, closures, function values by signature, CHA over module types; SDK callees are leaves classified by name+signature.",
+    technique="who-may-call over module call graph + value identity on SSA + edge-dominance")
+NOT_APPLICABLE = {p: _TODO for p in ["C02","C03","C04","C05","C06","C07","C08","C09","C10","C11","C12","C14","C15","C16","C17","C18","C19","C20"]}
